@@ -73,7 +73,7 @@ func init() {
 				return 0
 			}
 			if tier == core.Thorough {
-				return 6000
+				return 4000
 			}
 			return 300
 		},
@@ -800,13 +800,13 @@ func runDeterministic(c *core.Case) {
 	// ---- oracle
 	w := &world{c: c, db: db, qf: rawQF, cache: map[string]recomputed{}}
 	D := w.dump()
-	explained := map[string]bool{} // series|t
+	explained := map[string]bool{}  // series|t
 	exemptName := map[string]bool{} // rule name|t : not compared (see LevelNote)
 	evalTimes := map[int64]bool{}
-	prevOut := map[string]map[string]bool{}   // group key + "#" + rule index → series of the previous successful evaluation
+	prevOut := map[string]map[string]bool{}        // group key + "#" + rule index → series of the previous successful evaluation
 	pendingStale := map[string]map[string]string{} // group key → series (→ rule name) of rule instances removed by a reload
-	hazard := map[string]map[string]bool{}      // group key → rule names that lost an instance in the last reload
-	maybeStale := map[string]map[string]bool{}  // group key → series that may be marked stale at the next evaluation (see applyReload)
+	hazard := map[string]map[string]bool{}         // group key → rule names that lost an instance in the last reload
+	maybeStale := map[string]map[string]bool{}     // group key → series that may be marked stale at the next evaluation (see applyReload)
 	applyReload := func(rl reloadRec) {
 		oldBy := map[string]groupSpec{}
 		for _, g := range rl.old {
